@@ -15,7 +15,9 @@ Unconnected Send wrapper and Multiple Service Packet, the stream loop `serve`, r
 `Cpppo.Logix.exec`:
 
 * bounded work / progress: `serve_progress`, `serve_needs_no_fuel`, `parse_tree_linear`,
-  `frame_is_prefix`, `incomplete_frame_no_effect`
+  `frame_is_prefix`, `incomplete_frame_no_effect`, `bundle_work_bounded_by_depth`, `work_linear_partial`
+* **finding** `nested_bundles_superlinear`: Multiple Service Packets nested in one another make the parsers'
+  work quadratic (each level re-parses everything inside it) -- the linear bound holds only without nesting
 * state protection: `tags_change_only_by_write` (stream), `frame_change_is_write`, `bad_frame_isolated`,
   `request_change_is_write`
 * replies: `decoded_frame_is_answered`
@@ -147,6 +149,111 @@ theorem parse_tree_linear (d : Dev) (h : Header) (pl : Bytes) (dec : Decoded)
           · simp at hd
         · simp at hd
   · simp at hd
+
+/-! ### the work of the Multiple Service Packet parser: linear only without nesting (finding) -/
+
+/-- **true complexity of the bundle parser**: a request whose bundles are nested `depth` levels deep is
+scanned at most `depth` times -/
+theorem bundle_work_bounded_by_depth (depth : Nat) (bs : Bytes) : scanCost depth bs ≤ depth * bs.length :=
+  scanCost_le depth bs
+
+/-- **`work_linear_partial`**: for every request of the model's grammar (decidable: `decodeReq bs` succeeds;
+in particular no bundle inside a bundle) the parsers consume at most twice the request's bytes, however
+much nesting the parser would be prepared to follow.  The full statement -- the same for *every* byte string
+-- is false for the code and for this model of it: see `nested_bundles_superlinear`. -/
+theorem work_linear_partial (bs : Bytes) (r : Req) (h : decodeReq bs = some r) (fuel : Nat) :
+    scanCost fuel bs ≤ 2 * bs.length :=
+  scanCost_decoded h fuel
+
+/-- one level of nesting: a Multiple Service Packet addressed to the Message Router with exactly one member -/
+def nestHeader : Bytes := [10, 2, 32, 2, 36, 1, 1, 0, 4, 0]
+
+/-- Get Attributes All of the Message Router inside `d` Multiple Service Packets -/
+def nest : Nat → Bytes
+  | 0 => [1, 2, 32, 2, 36, 1]
+  | d + 1 => nestHeader ++ nest d
+
+theorem nest_length (d : Nat) : (nest d).length = 6 + 10 * d := by
+  induction d with
+  | zero => rfl
+  | succ n ih => simp only [nest, nestHeader, List.length_append, List.length_cons, List.length_nil, ih]; omega
+
+theorem nest_ne_nil (d : Nat) : nest d ≠ [] := by
+  intro h
+  have := nest_length d
+  rw [h] at this
+  simp only [List.length_nil] at this
+  omega
+
+/-- one more level costs one more pass over everything inside -/
+theorem scanCost_nest_step (fuel : Nat) (x : Bytes) (hx : x ≠ []) :
+    scanCost (fuel + 1) (nestHeader ++ x) = (10 + x.length) + scanCost fuel x := by
+  have hlen : 1 ≤ x.length := by
+    cases x with
+    | nil => exact absurd rfl hx
+    | cons a t => simp
+  have he : decodeEpath false ([2, 32, 2, 36, 1] ++ ([1, 0, 4, 0] ++ x)) = some ([.cls 2, .ins 1], [1, 0, 4, 0] ++ x) := by
+    have ht : takeN 4 ([32, 2, 36, 1] ++ ([1, 0, 4, 0] ++ x)) = some ([32, 2, 36, 1], [1, 0, 4, 0] ++ x) := by
+      unfold takeN
+      simp only [List.length_append, List.length_cons, List.length_nil]
+      rw [if_neg (by omega)]
+      rfl
+    show decodeEpath false (2 :: ([32, 2, 36, 1] ++ ([1, 0, 4, 0] ++ x))) = _
+    unfold decodeEpath
+    simp only [Bool.false_eq_true, if_false, ht]
+    rfl
+  have hm : memberSlices ([1, 0, 4, 0] ++ x) = some [x] := by
+    unfold memberSlices
+    have : ([1, 0, 4, 0] ++ x : Bytes) = 1 :: 0 :: 4 :: 0 :: x := rfl
+    rw [this]
+    simp only [u16, readU16s]
+    simp only [Nat.reduceMul, Nat.reduceAdd, Nat.mul_zero, Nat.add_zero, Nat.one_ne_zero, if_false,
+      Option.map_some, List.head?_cons, List.getLast?_singleton, Option.any_some, List.length_cons,
+      true_and, decide_eq_true_eq]
+    rw [if_pos ⟨rfl, by omega⟩]
+    rfl
+  show scanCost (fuel + 1) (10 :: ([2, 32, 2, 36, 1] ++ ([1, 0, 4, 0] ++ x))) = _
+  conv_lhs => rw [scanCost]
+  have hsvc : (10 : Nat) = Generated.svcMultiple := by decide
+  simp only [hsvc, if_true, he, hm, List.map_cons, List.map_nil, List.sum_cons, List.sum_nil, List.length_cons,
+    List.length_append, List.length_nil]
+  omega
+
+/-- each of the `d` levels scans everything it contains: at least `d/2` passes per byte -/
+theorem nest_cost (d : Nat) (fuel : Nat) (hf : d < fuel) :
+    d * (nest d).length ≤ 2 * scanCost fuel (nest d) := by
+  induction d generalizing fuel with
+  | zero => simp
+  | succ n ih =>
+    cases fuel with
+    | zero => omega
+    | succ f =>
+      have h1 := ih f (by omega)
+      have hl := nest_length n
+      have hl' := nest_length (n + 1)
+      simp only [nest]
+      rw [scanCost_nest_step f (nest n) (nest_ne_nil n)]
+      have e : (nestHeader ++ nest n).length = (nest n).length + 10 := by
+        simp [nestHeader]
+      rw [e, Nat.add_mul, Nat.mul_add, Nat.mul_add]
+      omega
+
+/-- **Finding (negation of the full statement on the model): the work is not linear in the input.**
+For every would-be constant `a, b` there is a request -- `a` … nested Multiple Service Packet headers of 10 bytes
+each around one 6-byte request -- whose parsing costs more than `a·len + b` (the code: each nesting level
+re-parses all the bytes it contains; measured on the real engine on every run). -/
+theorem nested_bundles_superlinear (a b : Nat) :
+    ∃ bs : Bytes, a * bs.length + b < scanCost bs.length bs := by
+  let d := 2 * a + b + 1
+  refine ⟨nest d, ?_⟩
+  have hl := nest_length d
+  have hc := nest_cost d (nest d).length (by omega)
+  -- d·len ≤ 2·cost with d > 2a + b, len ≥ 1
+  have h1 : (2 * a + b + 1) * (nest d).length ≤ 2 * scanCost (nest d).length (nest d) := hc
+  have h2 : (2 * a + b + 1) * (nest d).length = 2 * (a * (nest d).length) + b * (nest d).length + (nest d).length := by
+    rw [Nat.add_mul, Nat.add_mul, Nat.mul_assoc]; omega
+  have h3 : b ≤ b * (nest d).length := Nat.le_mul_of_pos_right b (by omega)
+  omega
 
 /-! ### state protection -/
 
@@ -291,6 +398,12 @@ example : ∃ h pl dec, splitFrame writeFrame = some (h, pl, []) ∧ decodeFrame
     ∧ dec.req = .simple (.writeTag [.symbolic "A", .elem 1] 195 1 [7, 0]) := by
   refine ⟨⟨111, 44, 287454020, 0, [1, 2, 3, 4, 5, 6, 7, 8], 0⟩, writeFrame.drop 24, ⟨0, 5, _⟩, ?_, ?_, rfl⟩ <;>
     decide +kernel
+
+/-- the witness at depth 3: one 6-byte request in 30 bytes of headers costs 36 + 26 + 16 + 6 = 84 symbols,
+and the model's strict grammar does not accept it (a bundle is not a member of a bundle) -/
+example : scanCost 10 (nest 3) = 84 ∧ (nest 3).length = 36 ∧ decodeReq (nest 3) = none := by decide +kernel
+
+example : decodeReq (nest 1) = some (.multiple [.cls 2, .ins 1] [.getAttrAll [.cls 2, .ins 1]]) := by decide +kernel
 
 /-- a machine with an epsilon cycle 0 → 1 → 0 that consumes nothing: with the crumb check the loop ends after
 two passes (stasis); without it the loop runs for as long as it is given fuel -/
